@@ -160,6 +160,12 @@ def make_shape(rnd, tmp, k, focus=False):
         with open(sp, 'wb') as f:
             f.write(b'\xef\xbb\xbf' + raw)
         shape['bom_settings'] = True
+    if rnd.random() < (.5 if focus else .2):
+        # the user's own safety copies of the settings (made by hand, or by an editor)
+        for nm in rnd.sample(['settings.yaml.bak', 'settings.yaml~', 'settings.yaml.orig', 'settings.bak'], rnd.randint(1, 2)):
+            with open(os.path.join(cfg, nm), 'w') as f:
+                f.write('year: 2023\n# my settings as they were before I changed the sources\n')
+        shape['settings_backups'] = True
     if rnd.random() < .3:
         # the user's own .gitignore (patterns spelled their way, or statements tracked on purpose)
         with open(os.path.join(base, '.gitignore'), 'w') as f:
